@@ -62,7 +62,69 @@ theorem ok_of_okVal {r : Res Int} {t : Int} (h : okVal r = some t) : r = .ok t :
   | ok v => simp only [okVal, Option.some.injEq] at h; rw [h]
   | error e => simp [okVal] at h
 
+/-! ### the business-day step: every datetime constructed on the way is range-checked -/
+
+/-- a datetime: inside [0001-01-01, 9999-12-31] -/
+def InRange (t : Int) : Prop := 0 ≤ t ∧ t < MAXUS
+
+instance (t : Int) : Decidable (InRange t) := by unfold InRange; infer_instance
+
+theorem walkDays_ok (t c r : Int) (ks : List Int) :
+    walkDays t c ks = .ok r ↔ (∀ k ∈ ks, InRange (t + k * DAYUS)) ∧ r = (ks.getLast?.map (fun k => t + k * DAYUS)).getD c := by
+  induction ks generalizing c with
+  | nil => simp only [walkDays, List.not_mem_nil, false_imp_iff, implies_true, true_and, List.getLast?_nil, Option.map_none, Option.getD_none]
+           constructor
+           · intro e; cases e; rfl
+           · intro e; rw [e]
+  | cons k ks ih =>
+    simp only [walkDays, List.mem_cons, forall_eq_or_imp]
+    by_cases hk : InRange (t + k * DAYUS)
+    · have : checkRange (t + k * DAYUS) = .ok (t + k * DAYUS) := (checkRange_ok _ _).2 ⟨hk, rfl⟩
+      simp only [this, Except.bind, ih, hk, true_and]
+      cases ks with
+      | nil => simp
+      | cons k' ks' =>
+        obtain ⟨l, hl⟩ : ∃ l, (k' :: ks').getLast? = some l := ⟨_, List.getLast?_eq_some_getLast (by simp)⟩
+        simp [List.getLast?_cons_cons, hl]
+    · have : ∃ e, checkRange (t + k * DAYUS) = .error e := by
+        unfold checkRange; unfold InRange at hk; simp only [hk, if_false]; exact ⟨_, rfl⟩
+      obtain ⟨e, he⟩ := this
+      simp only [he, Except.bind, hk, false_and, iff_false]
+      intro x; cases x
+
+/-- the offsets the block passes through: after the weekend roll, after the whole weeks, after the remaining days -/
+theorem bOffPath_eq (w n : Int) :
+    bOffPath w n = [if w > 4 then 7 - w else 0, (if w > 4 then 7 - w else 0) + 7 * (n / 5), bOff w n] := by
+  unfold bOffPath bOff; simp only []; split <;> simp
+
+/-- the `'nb'` step succeeds iff each of the three datetimes it constructs is representable; its value is the closed form -/
+theorem bday_ok_iff (t n r : Int) :
+    applyStep t (.bday n) = .ok r ↔
+      (∀ k ∈ bOffPath (wdOf t) n, InRange (t + k * DAYUS)) ∧ r = t + bOff (wdOf t) n * DAYUS := by
+  simp only [applyStep, walkDays_ok]
+  rw [bOffPath_eq]; simp
+
+/-- what a successful `'nb'` step returns (the final value only) -/
+theorem bday_ok (t n r : Int) (h : applyStep t (.bday n) = .ok r) :
+    (0 ≤ t + bOff (wdOf t) n * DAYUS ∧ t + bOff (wdOf t) n * DAYUS < MAXUS) ∧ r = t + bOff (wdOf t) n * DAYUS := by
+  rw [bday_ok_iff] at h
+  refine ⟨?_, h.2⟩
+  have := h.1 (bOff (wdOf t) n) (by rw [bOffPath_eq]; simp)
+  exact this
+
 /-! ### microsecond representation -/
+
+/-- a shifted instant is representable iff its day is one of 0001-01-01 .. 9999-12-31 -/
+theorem inRange_add_days (t k : Int) : InRange (t + k * DAYUS) ↔ 1 ≤ ordOf t + k ∧ ordOf t + k ≤ 3652059 := by
+  unfold InRange MAXUS ordOf DAYUS; omega
+
+theorem inRange_iff (t : Int) : InRange t ↔ 1 ≤ ordOf t ∧ ordOf t ≤ 3652059 := by
+  unfold InRange MAXUS ordOf DAYUS; omega
+
+theorem iter_succ_inner (f : Int → Int) (k : Nat) (o : Int) : iter f (k + 1) o = iter f k (f o) := by
+  induction k with
+  | zero => rfl
+  | succ k ih => simp only [iter] at ih ⊢; rw [ih]
 
 theorem ordOf_add_days (t k : Int) : ordOf (t + k * DAYUS) = ordOf t + k := by
   unfold ordOf DAYUS; omega
@@ -76,5 +138,32 @@ theorem todOf_ofOrd (o : Int) : todOf (ofOrd o) = 0 := by unfold todOf ofOrd DAY
 
 theorem split_t (t : Int) : t = ofOrd (ordOf t) + todOf t ∧ 0 ≤ todOf t ∧ todOf t < DAYUS := by
   unfold ofOrd ordOf todOf DAYUS; omega
+
+end Pyg.Bump
+
+namespace Pyg.Bump
+open Pyg Pyg.Gen
+
+/-- the `'nb'` step in terms of days: it succeeds iff each of the three days it passes through (after the weekend roll, after
+the whole weeks, after the remaining days) is a day of years 1..9999; the result is the closed form with the time of day kept -/
+theorem bday_ok_ord (t n r : Int) :
+    applyStep t (.bday n) = .ok r ↔
+      (∀ k ∈ bOffPath (wd (ordOf t)) n, 1 ≤ ordOf t + k ∧ ordOf t + k ≤ 3652059) ∧ r = t + bOff (wd (ordOf t)) n * DAYUS := by
+  rw [bday_ok_iff]; unfold wdOf
+  constructor
+  · intro ⟨h, e⟩; exact ⟨fun k hk => (inRange_add_days t k).1 (h k hk), e⟩
+  · intro ⟨h, e⟩; exact ⟨fun k hk => (inRange_add_days t k).2 (h k hk), e⟩
+
+/-- from a weekday the block first moves by whole weeks and then by at most six more days -/
+theorem bOff_weeks (w n : Int) (h : 0 ≤ w ∧ w < 5) : 7 * (n / 5) ≤ bOff w n ∧ bOff w n ≤ 7 * (n / 5) + 6 := by
+  unfold bOff; simp only []; repeat' split
+  all_goals omega
+
+/-- two days have the same `'nb'` image iff they are the same day or the earlier one is a weekend day whose following Monday
+is not before the later one (Sat/Sun/Mon of one weekend) -/
+theorem b_eq_iff (o₁ o₂ n : Int) (h : o₁ ≤ o₂) :
+    o₁ + bOff (wd o₁) n = o₂ + bOff (wd o₂) n ↔ (o₁ = o₂ ∨ (5 ≤ wd o₁ ∧ o₂ ≤ o₁ + (7 - wd o₁))) := by
+  unfold bOff wd; simp only []; repeat' split
+  all_goals omega
 
 end Pyg.Bump
